@@ -24,3 +24,58 @@ Proof. exact sequence_gap_deadlock. Qed.
 Theorem C12_stale_last_pointer_refuted :
   exists s, run (unrepaired 2 1) f4_sched (init (unrepaired 2 1) f4_tokens) = Some s /\ crashed s = true.
 Proof. exact stale_last_pointer. Qed.
+
+(* ---------------------------------------------------------------------------------------------------------------
+   The repaired protocol (skip_empty = false, reset_last = true).  Quantified over: the number of batch objects Q >= 1
+   (the tool uses 2 * threads, so every thread count is covered), the batch size B >= 1, every token list whose lines
+   are well-formed for the filter contract (a line is sent to all outputs once, or to single outputs, never both) and
+   which ends with a Flush (EndLength of the last ARPA section / the raw format's final Flush), and every schedule:
+   `reachable Q B toks s` = some sequence of [reader step | arrival of ANY in-flight batch at the OutputWorker] leads
+   from the constructor's state to s.  Arrival of any in-flight batch next over-approximates every interleaving of any
+   number of FilterWorkers and of the queues. *)
+
+(* no n-gram lost, duplicated, reordered or sent to the wrong output: a finished run wrote exactly what the
+   single-threaded filter writes (events = (target output(s), line) and section marks, in order) *)
+Theorem C12_output_equals_sequential : forall Q B, 1 <= Q -> 1 <= B -> forall toks, Forall wf_token toks ->
+  (forall l, last toks EndSection <> Line l) ->
+  forall s, reachable Q B toks s -> done s = true -> out s = sequential toks.
+Proof. exact output_equals_sequential. Qed.
+
+(* ... and at every moment of every run the output so far is a prefix of it *)
+Theorem C12_output_prefix : forall Q B, 1 <= Q -> 1 <= B -> forall toks, Forall wf_token toks ->
+  (forall l, last toks EndSection <> Line l) ->
+  forall s, reachable Q B toks s -> exists rest, out s ++ rest = sequential toks.
+Proof. exact output_prefix. Qed.
+
+(* the undefined behaviour of F4 (back() of an empty vector) and a sequence number below base_sequence_ are unreachable *)
+Theorem C12_never_crashes : forall Q B, 1 <= Q -> 1 <= B -> forall toks, Forall wf_token toks ->
+  (forall l, last toks EndSection <> Line l) ->
+  forall s, reachable Q B toks s -> crashed s = false.
+Proof. exact never_crashes. Qed.
+
+(* the sequence numbers in flight are exactly base_sequence_ .. nsub-1, each once: no gap (F3), no duplicate *)
+Theorem C12_dense_sequence : forall Q B, 1 <= Q -> 1 <= B -> forall toks, Forall wf_token toks ->
+  (forall l, last toks EndSection <> Line l) ->
+  forall s, reachable Q B toks s ->
+  exists nsub, base s <= nsub /\
+               Permutation.Permutation (map bseq (bag s) ++ present_seqs (base s) (ordering s)) (seq (base s) (nsub - base s)).
+Proof. exact dense_sequence. Qed.
+
+(* while the run is not finished some thread can step *)
+Theorem C12_no_deadlock : forall Q B, 1 <= Q -> 1 <= B -> forall toks, Forall wf_token toks ->
+  (forall l, last toks EndSection <> Line l) ->
+  forall s, reachable Q B toks s -> done s = false -> exists t s', step (mkconfig Q B false true) s t = Some s'.
+Proof. exact no_deadlock. Qed.
+
+(* every schedule is finite (a measure decreases with every step), so with C12_no_deadlock every run ends finished *)
+Theorem C12_terminates : forall Q B, 1 <= Q -> 1 <= B -> forall toks, Forall wf_token toks ->
+  (forall l, last toks EndSection <> Line l) ->
+  forall sched s, run (mkconfig Q B false true) sched (init (mkconfig Q B false true) toks) = Some s ->
+  length sched <= 8 * length toks + 2.
+Proof. exact terminates. Qed.
+
+(* MultipleOutputBuffer: filtering a clean batch buffers exactly the sequential filter's calls for its lines,
+   whatever the batch object was used for before *)
+Theorem C12_batch_output_independent_of_history : forall b, clean b -> Forall wf_line (blines b) ->
+  exists b', call_filter b 0 (blines b) = Some b' /\ same_hdr b b' /\ flush_events b' = flat_map line_events (blines b).
+Proof. exact filter_clean_batch. Qed.
